@@ -129,3 +129,22 @@
 ;@spec refcb smt=refcb args=Int res=Bool heap=StoreCallbacks.ItemAlloc,StoreCallbacks.ItemAddRef,StoreCallbacks.ItemDecRef
 (define-fun s32 ((u Int)) Int (ite (>= u 2147483648) (- u 4294967296) u))
 ;@spec s32 smt=s32 args=Int res=Int
+
+; the empty lock set (ghost `locks` maps a mutex reference to the number of holds by the current call)
+(define-fun emptyLocks () (Array Int Int) ((as const (Array Int Int)) 0))
+;@spec emptyLocks smt=emptyLocks args= res=(Array_Int_Int)
+
+; a nodeLoc denotes the empty tree: nil, or neither a location nor a cached node
+(define-fun emptyNL ((LOC (Array Int Int)) (NODE (Array Int Int)) (O (Array Int Int)) (L (Array Int Int)) (x Int)) Bool
+  (or (= x 0) (and (emptyLoc O L (select LOC x)) (= (select NODE x) 0))))
+;@spec emptyNL smt=emptyNL args=Int res=Bool heap=nodeLoc.loc,nodeLoc.node,ploc.Offset,ploc.Length
+; height-like measure making recursion over trees well-founded (trees are acyclic: relied upon)
+(declare-fun rank (Int) Int)
+;@spec rank smt=rank args=Int res=Int
+; length of the chain of superseding versions hanging off a root version (well-founded: relied upon)
+(declare-fun chainlen (Int) Int)
+;@spec chainlen smt=chainlen args=Int res=Int
+; x is a stand-alone nodeLoc (from mkNodeLoc or a package sentinel), not the left/right slot embedded in a node
+(define-fun standaloneNL ((x Int)) Bool
+  (and (not (= (|node.left@| (|node.left@^-1| x)) x)) (not (= (|node.right@| (|node.right@^-1| x)) x))))
+;@spec standaloneNL smt=standaloneNL args=Int res=Bool
